@@ -6,7 +6,7 @@
    visibility threaded through shadowing binders); `access_site P M y` says that y occurs, at any depth, in some
    declaration of module M of project P. *)
 From Coq Require Import List String ZArith.
-From FV Require Import Models.Vis Proofs.VisP.
+From FV Require Import Models.Vis Proofs.VisP Proofs.VisExact.
 Import ListNotations.
 Open Scope string_scope.
 
@@ -83,6 +83,40 @@ Theorem C12_literal_step :
     chk_e P imps r (EStruct (EInit f v rest)) = (chk_e P imps r v ++ chk_e P imps r (EStruct rest))%list.
 Proof. exact literal_step. Qed.
 Print Assumptions C12_literal_step.
+
+(* exactness: check_project raises z iff z is raised at some position occurring in some declaration of some module
+   (so the closure theorems above lose nothing, and nothing else is ever reported) *)
+Theorem C12_exact :
+  forall P z, In z (check_project P) <-> offending P z.
+Proof. exact check_project_exact. Qed.
+Print Assumptions C12_exact.
+
+(* a project is accepted iff no position holds an offending access *)
+Theorem C12_accepted_iff_no_offending_access :
+  forall P, project_ok P = true <-> (forall z, ~ offending P z).
+Proof. exact project_ok_exact. Qed.
+Print Assumptions C12_accepted_iff_no_offending_access.
+
+(* what can be raised at a position: only m::n (expression or type) through resolveStaticAccess, or e.f with f
+   lowercase and e not the receiver identifier *)
+Theorem C12_offending_forms :
+  forall P imps y z, leaf_err P imps y z ->
+    (exists m n, (snd y = NE (EQual m n) \/ snd y = NT (TQual m n)) /\ In z (static_access P imps m n)) \/
+    (exists b f, snd y = NE (ESel b f) /\ z = VPrivateField f /\ exported f = false /\ is_recv (fst y) b = false).
+Proof. exact leaf_err_cases. Qed.
+Print Assumptions C12_offending_forms.
+
+(* the rule implemented by the compiler does not cover methods: a lowercase method declared in another module is
+   callable (open finding F-C12-PRIVATE-METHOD; replayed on the implementation by harness/c12.py) *)
+Theorem C12_private_method_refuted :
+  exists P M L r b m args,
+    In L P /\ L <> M /\
+    access_site P M (r, NE (EMeth b m args)) /\
+    exported m = false /\
+    (exists rv rty ps rt body, In (DMethod rv rty m ps rt body) L.(m_decls)) /\
+    project_ok P = true.
+Proof. exact private_method_refuted. Qed.
+Print Assumptions C12_private_method_refuted.
 
 (* the hypotheses of the three closure theorems are satisfiable (range bound, element type of a parameter, compound
    assignment target), and a project with exported accesses, a receiver access inside a closure of a method and a
